@@ -35,7 +35,7 @@ def configs(tier):
 
 def order_configs(tier):
     """Row-order clause: 2 looms x 2 processes, every assignment of the ranks 0..3 to the four processes (and no ranks at all),
-    with PIDs whose string order (proc.10 < proc.9) differs from the numeric one, so that stream enumeration order,
+    with PIDs and TIDs whose string order (proc.10 < proc.9, thread.100 < thread.99) differs from the numeric one, so that stream enumeration order,
     PID order, rank order and loom-name order all disagree somewhere."""
     out = []
     perms = [None] + list(itertools.permutations(range(4)))
@@ -48,7 +48,8 @@ def order_configs(tier):
                 for pi in range(2):
                     pid = pids[li][pi] + 100 * li
                     procs.append({"pid": pid, "app": 1, "rank": (perm[k] if perm else None), "nranks": (4 if perm else None),
-                                  "threads": [1000 * (li + 1) + pid]})
+                                  # two threads whose TIDs differ in length: numeric order (96 < 103) is not the order of their names
+                                  "threads": [100 + k, 99 - k]})
                     k += 1
                 spec.append({"name": lname, "cpus": [(0, 1 + 4 * li), (1, 0 + 4 * li)], "procs": procs})
             out.append(spec)
